@@ -55,6 +55,12 @@ CLAIMED = {
         "Trusts the FS-call table, the source/sanitizer tables and the call-graph resolution (fan-out over-approximates callers). Pickle loading of resource files inside the resource directory is trusted.",
         "DESIGN.md §5 C15",
     ),
+    "C12": (
+        "effect analysis: complete inventory of module/class-level mutable state and of every function-level write to it (item stores, mutator calls, class/module attribute stores, global statements) against a reviewed allow-list; CFG dominance of copy-before-store on shared tables; constructor-site enumeration for mutators of shareable CMap objects; mutable-default scan; cache-path sibling agreement",
+        "Decides purity as absence of channels: no function writes process-wide state except two reviewed memo tables and the interning tables, shared encoding/colour-space tables are copied before any store, CMap mutators only run on freshly constructed maps, entry points construct their managers per call, caches store exactly what the uncached path returns under the caching flag. It does not decide bit-for-bit equality of outputs across histories.",
+        "Assumes deterministic dict order/float arithmetic and immutable resource files; aliasing through function arguments is not tracked beyond the listed idioms.",
+        "DESIGN.md §5 C12",
+    ),
     "C14": (
         "finite abstraction of the scanner automaton analysed completely (path enumeration of loop-free scanners with symbolic index arithmetic; zero-advance subgraph acyclicity), exception-flow analysis over the resolved call graph with a verified safe-table, buffer-read classification, write-set checks",
         "The tokenizer's twelve scanner methods are abstracted to a finite automaton whose every transition is classified by the advance of the returned index; acyclicity of the zero-advance subgraph plus the driver-loop obligations give termination and non-decreasing positions for every byte string; the exception-flow analysis shows only PSEOF escapes; read classification shows tokens cannot depend on the buffer size. This is a complete analysis of the abstraction, not a sample of inputs.",
